@@ -19,8 +19,17 @@ FPR = {
 
 def spec(tier):
     units, jobs = {}, []
-    for kind, maxi, ops in [(3, 2, "PPPF"), (1, 2, "PPP"), (0, 2, "PPR")]:
-        u = "c%d_%d_%s" % (kind, maxi, ops)
-        units[u] = dict(harness=["C18/h_cache.c"], sources=SRC, stubs=STUBS, defines={"KIND": kind, "MAXI": maxi, "OPS": '"%s"' % ops}, fp_restrict=FPR)
-        jobs.append(dict(unit=u, entry="h_cache_program", unwind=6, unwindset={"chk_state": 18, "r_find": 9, "r_erase": 9, "h_cache_program": 9}, timeout=300, bounds="probe", what="probe"))
+    VT = {1: ("s_fifo_cache_put", "aws_cache_base_default_find"), 2: ("s_lifo_cache_put", "aws_cache_base_default_find"), 3: ("s_lru_cache_put", "s_lru_cache_find")}
+    for kind, maxi, ops, hs in [(0, 2, "PP", "000"), (0, 2, "PP", "012"), (3, 2, "PPP", "000"), (3, 2, "PPPF", "013"), (1, 2, "PPP", "011")]:
+        fpr = dict(FPR)
+        if kind:
+            fpr.update({"aws_cache_put.function_pointer_call.1": [VT[kind][0]], "aws_cache_find.function_pointer_call.1": [VT[kind][1]],
+                        "aws_cache_remove.function_pointer_call.1": ["aws_cache_base_default_remove"], "aws_cache_clear.function_pointer_call.1": ["aws_cache_base_default_clear"],
+                        "aws_cache_get_element_count.function_pointer_call.1": ["aws_cache_base_default_get_element_count"],
+                        "aws_cache_destroy.function_pointer_call.1": ["aws_cache_base_default_destroy"],
+                        "aws_lru_cache_use_lru_element.function_pointer_call.1": ["s_lru_cache_use_lru_element"],
+                        "aws_lru_cache_get_mru_element.function_pointer_call.1": ["s_lru_cache_get_mru_element"]})
+        u = "c%d_%d_%s_%s" % (kind, maxi, ops, hs)
+        units[u] = dict(harness=["C18/h_cache.c"], sources=SRC, stubs=STUBS, defines={"KIND": kind, "MAXI": maxi, "OPS": '"%s"' % ops, "HSET": '"%s"' % hs, "NP": ops.count("P"), "KEYS": '"0312"', "VERIF_ALLOC_SIZES": "128,176,272,464"}, fp_restrict=fpr)
+        jobs.append(dict(unit=u, entry="h_cache_program", unwind=6, unwindset={"chk_state": 18, "r_find": 6, "r_erase": 6, "h_cache_program": 9, "verif_alloc_split": 6}, timeout=300, bounds="probe", what="probe"))
     return dict(units=units, jobs=jobs, meta={})
